@@ -175,6 +175,19 @@ theorem koi8t_table_roundtrip (bs : List UInt8) (cs : List Nat) (h : charmapDeco
     charmapEncode koi8tTable cs = .ok bs :=
   Charset.charmap_roundtrip koi8tTable (injBool_sound _ koi8t_injective) bs cs h
 
+/-! ## Loading a file with a codec that passed the ASCII-compatibility test -/
+
+/-- `encodings.decode` (used for PO text, PO escapes and MO strings) yields text or a UnicodeDecodeError with a valid span —
+    also for codecs that report malformed input with a bare UnicodeError (idna: `.xn--a`), which used to crash the tool -/
+theorem loader_decode_total (len : Nat) (raw : RawDecode) (hraw : raw ≠ .other) :
+    (∃ cs, loaderDecode len raw = .text cs) ∨
+    (∃ s e, loaderDecode len raw = .ude s e ∧ (raw = .unicodeError → s = 0 ∧ e = len)) := by
+  cases raw with
+  | text cs => exact .inl ⟨cs, rfl⟩
+  | ude s e => exact .inr ⟨s, e, rfl, fun h => by cases h⟩
+  | unicodeError => exact .inr ⟨0, len, rfl, fun _ => ⟨rfl, rfl⟩⟩
+  | other => exact (hraw rfl).elim
+
 /-! ## EUC-TW: the structure of the encoding (glibc's euc-tw.c) over abstract CNS 11643 tables -/
 
 /-- a decode error of the EUC-TW structure points at a byte inside the input (the binding turns that offset into the
